@@ -5,7 +5,7 @@ from .base import Verdict, sig_of, tagged, crash_check, cb_paths
 
 ID = "C01"
 LEVEL = "exploration"
-RUNS = (16000, 400000)
+RUNS = (32000, 600000)
 RULE = ("one seeded tree of DESIGN.md 5.3 (1-4 layers x main-file state per layer x drop-in name sets x suffix spelling x "
         "parameter shape) read once under seeded enumeration order / d_type / short reads / heap fill; non-trivial = at least "
         "two consulted files in at least two layers; distinct = distinct (main-state pattern, per-layer drop-in counts, masked "
